@@ -433,7 +433,15 @@ class _MovePolicy(BasePolicy):
             for v in expr.values:
                 out |= self.eval(v, state, flow) & {"MI"}
             return out
-        return frozenset()
+        # any value computed while the incumbent has not moved satisfies 'moved implies true' vacuously
+        return frozenset({"MI"}) if "NM" in state.get("$nm", frozenset()) else frozenset()
+
+    def refine(self, test, polarity, state, flow):
+        # on the true edge of ``if flag:`` the flag is true
+        for c, pol in conjuncts(test, polarity):
+            if isinstance(c, ast.Name) and pol:
+                state[c.id] = state.get(c.id, frozenset()) | {"B:True", "MI"}
+        return state
 
     def eval_unpack(self, value, i, n, state, flow):
         # gp, flag = local_gp_fitting(gp_copy, <reference point>, ...): a surrogate centred on the reference point
